@@ -247,7 +247,15 @@ def path_cases(paths):
     for p in paths:
         for f, r, _w in expand_cases(tuple(p.state.facts), p.ret, {}):
             if isinstance(r, BoolV) and isinstance(r.cond, tuple):
-                conj = list(r.cond[1:]) if r.cond[0] == "and" else [r.cond]
+                def _flat(c):
+                    if isinstance(c, tuple) and c and c[0] == "and":
+                        out_ = []
+                        for x in c[1:]:
+                            out_ += _flat(x)
+                        return out_
+                    return [c]
+
+                conj = _flat(r.cond)
                 if all(c_not(c) not in f for c in conj):
                     out.append((f + tuple(c for c in conj if c not in f), BoolV(True), p))
                 for i, c in enumerate(conj):
